@@ -78,13 +78,23 @@ def body(c):
     c.extra["model_vs_crate_notes"] = notes
     c.sample({"spec->impl case": {k: cases[len(cases) // 2][k] for k in ("dag", "ty", "aux", "inp", "ok", "out", "why")}})
     record_part(c, pid, q)
+    if pid == "C05":
+        # the jet library: every Core jet with flat source and target on patterned and random inputs, judged by JetLib.tla
+        jpath = os.path.join(c.work, "jets.ndjson")
+        c.vh(["c05", "jets", 12 if q else 300, jpath], timeout=3000)
+        def describe_jet(ev):
+            return ("c05:jet-function", "jet %s on input %s returned %s, JetLib.tla specifies something else" % (ev["name"], "".join(map(str, ev["in"]))[:140], str(ev["out"])[:140]))
+        validate_trace(c, "Trace_JetLib", "Trace_JetLib.cfg", jpath, describe_jet, heap="6g", timeout=3000)
+        names = set(json.loads(l)["name"] for l in open(jpath))
+        c.extra["core_jets_run"] = len(names)
     c.assumptions += ["the harness pins every node's arrow to the spec's typing through Context::unify (public API)",
                       "disconnect in the exhaustive model uses a scaled-down CMR word; real 256-bit disconnects are bound by recorded traces"]
     c.finish_kw = dict(exhaustive=True, rule=(
         "TLC: every reachable DAG up to 3 (4) nodes over all executable combinators, word constants and three jets, principal "
         "typing instantiated by K schemes, all inputs, witness/word values, memory fill 0/1, every machine step a state "
         "(frame/bound/semantic invariants); each finished run replayed on BitMachine (twice: zeroed and 0xFF-filled memory); "
-        "plus recorded runs of generated programs validated by TLC"))
+        "plus recorded runs of generated programs validated by TLC; about 120 arithmetic / logic / comparison jets are specified as "
+        "bit-string functions (JetLib.tla) and judged on every recorded visit and on patterned and random inputs of their own"))
 
 def record_part(c, pid, q):
     runs = 150 if q else 2500
